@@ -16,6 +16,11 @@ MUTANTS = [
     ('C01', 'rank_chop < to <=', 'torchtt/_decomposition.py', 'R = np.argmax(sc<eps**2)', 'R = np.argmax(sc<=eps**2)', None),
     ('C01', 'mat_to_tt un-interleave', 'torchtt/_decomposition.py', 'tmp = tn.reshape(tmp,[M[i],N[i],tmp.shape[1],tmp.shape[2]])', 'tmp = tn.permute(tn.reshape(tmp,[N[i],M[i],tmp.shape[1],tmp.shape[2]]),[1,0,2,3])', 'ttm'),
     ('C01', 'rmax off by one', 'torchtt/_decomposition.py', 'r1 = min([r1,rmax[i+1]])', 'r1 = min([r1,rmax[i]])', 'rmax'),
+    ('C02', 'round: eps not split', 'torchtt/_decomposition.py', 'eps = eps / np.sqrt(d-1) ', 'eps = eps * 1.0 ', None),
+    ('C02', 'round: no orthogonalisation', 'torchtt/_decomposition.py', '    tt_cores, R = lr_orthogonal(tt_cores, R, is_ttm)\n    core_now = tt_cores[-1]', '    tt_cores = [c.clone() for c in tt_cores]\n    core_now = tt_cores[-1]', None),
+    ('C02', 'round: Rmax index shift', 'torchtt/_decomposition.py', 'r_now = min([Rmax[i],rank_chop(S.numpy(),tn.linalg.norm(S).numpy()*eps)])', 'r_now = min([Rmax[i+1],rank_chop(S.numpy(),tn.linalg.norm(S).numpy()*eps)])', 'rmax'),
+    ('C02', 'round: R.copy removed', 'torchtt/_tt_base.py', 'self.cores, self.__R.copy(), eps, rmax, self.__is_ttm)', 'self.cores, self.__R, eps, rmax, self.__is_ttm)', None),
+    ('C02', 'round: S on the wrong factor', 'torchtt/_decomposition.py', '        U = U @ tn.diag(S)\n        R[i] = r_now\n        core_next = core_next @ U\n        core_now = V', '        R[i] = r_now\n        core_next = core_next @ U\n        core_now = tn.diag(S*S) @ V', None),
     ('C03', 'pad side swapped in add', 'torchtt/_tt_base.py', "                        pad1 = (0, 0 if i == len(\n                            self.__N)-1 else other.R[i+1], 0, 0, 0, 0 if i == 0 else other.R[i])\n                        pad2 = (0 if i == len(\n                            self.__N)-1 else self.__R[i+1], 0, 0, 0, 0 if i == 0 else self.R[i], 0)\n                        cores.append(\n                            tnf.pad(self.cores[i], pad1)+tnf.pad(other.cores[i], pad2))\n                else:", "                        pad1 = (0, 0 if i == len(\n                            self.__N)-1 else other.R[i+1], 0, 0, 0, 0 if i == 0 else other.R[i])\n                        pad2 = (0 if i == len(\n                            self.__N)-1 else self.__R[i+1], 0, 0, 0, 0 if i == 0 else self.R[i], 0)\n                        cores.append(\n                            tnf.pad(self.cores[i], pad2)+tnf.pad(other.cores[i], pad1))\n                else:", 'tt_binop'),
     ('C03', 'mul einsum letters', 'torchtt/_tt_base.py', "tn.einsum('aib,mn->amibn', self.cores[i], other.cores[k][:, 0, :])", "tn.einsum('aib,mn->maibn', self.cores[i], other.cores[k][:, 0, :])", 'tt_binop'),
     ('C03', 'div in place again', 'torchtt/_tt_base.py', 'cores_new[0] = cores_new[0] / other', 'cores_new[0] /= other', 'tt_scalar'),
